@@ -189,7 +189,9 @@ def execute(trace, ctx=None):
                     if not per:
                         continue
                     n_candles = len(inds[0].candles)
-                    measured.append((n_candles, max(per), max(calls), per))
+                    # which members had a reading on the newest candle (None vs value takes different paths)
+                    state = tuple(ind.candles[-1].indicators.get(ind.name) is None for ind in inds if ind.candles)
+                    measured.append((n_candles, max(per), max(calls), per, state))
                     for k, ind in enumerate(inds):
                         v = ind.candles[-1].indicators.get(ind.name) if ind.candles else None
                         if v is None and not (cfg.get("sparse") and k == 1):
@@ -203,19 +205,26 @@ def execute(trace, ctx=None):
             raise Discard("ladder-incomplete")
         if measured[0][0] < MIN_HISTORY:
             raise Discard("history-shorter-than-warm-up-bound")   # keeps shrinking inside the property's domain
-        base_n, base_lines, base_calls, _ = measured[0]
-        run.observe([(n, l, c) for n, l, c, _p in measured])
-        for n, lines, calls, per in measured[1:]:
+        base_n, base_lines, base_calls, _, base_state = measured[0]
+        run.observe([(n, l, c) for n, l, c, _p, _s in measured])
+        comparable = 0
+        for n, lines, calls, per, state in measured[1:]:
+            if state != base_state:
+                # a member had no reading at one rung and one at the other (legitimately different code
+                # path, e.g. a dependant of Supertrend.short): not comparable, reported
+                run.stats["guard:rung_state_differs_not_compared"] += 1
+                continue
+            comparable += 1
             if lines > 1.25 * base_lines + 20:
                 raise Violation("work-grows-with-history", label, "lines",
-                                {"ladder": [(a, b, c) for a, b, c, _p in measured], "limit": 1.25 * base_lines + 20})
+                                {"ladder": [(a, b, c) for a, b, c, _p, _s in measured], "limit": 1.25 * base_lines + 20})
             if calls > base_calls + 2:
                 raise Violation("work-grows-with-history", label, "calculate_reading-calls",
-                                {"ladder": [(a, b, c) for a, b, c, _p in measured]})
+                                {"ladder": [(a, b, c) for a, b, c, _p, _s in measured]})
         run.stats["reach:ladders_measured"] += 1
         run.stats["reach:history_candles_at_last_rung"] += measured[-1][0]
         run.state(cfg["kind"], len(cfg["members"]), any(m["common"].get("timeframe") for m in cfg["members"]))
-        run.nontrivial = warm_all and len(measured) == len(cfg["rungs"])
+        run.nontrivial = warm_all and len(measured) == len(cfg["rungs"]) and comparable >= 1
     return run_property(ID, body, trace)
 
 
